@@ -12,7 +12,12 @@ SHARED = [('alpha', 'role:new_alpha', ('old_alpha', 'role:old_alpha'), None),
           ('beta', 'role:new_beta or role:x', ('beta', 'role:old_beta'), None),
           ('gamma', 'role:gamma', None, ['project']),
           ('delta', 'role:delta', ('old_delta', 'role:delta'), None),
-          ('eps', 'role:eps', ('old_eps', 'role:old_eps'), None, 'legacy')]
+          ('eps', 'role:eps', ('old_eps', 'role:old_eps'), None, 'legacy'),
+          # a registered default that REFERS to a name the files define and redefine (its check objects live as long as
+          # the registration; those parsed from files are rebuilt by every reload)
+          ('theta', 'rule:beta or role:theta', None, None)]
+PROBE_ROLES = ['dflt', 'other', 'x', 'theta', 'new_beta', 'old_beta', 'mainbeta', 'dir2'] + \
+              ['dir2e%d' % k for k in range(1, 8)] + ['edit%d_%d' % (i, k) for i in range(3) for k in range(1, 8)]
 
 
 def snapshot(objs):
@@ -89,6 +94,9 @@ def run_scenario(root, nenf, actions, seed):
                 # "as loading once" stays the yardstick (merging keeps what later versions of a file drop, by design)
                 if act == 'editmain':
                     x['fs'].touch_main()
+                elif x['k'] % 2:
+                    # ... or with another VALUE for the same names: merging replaces the value, as loading once does
+                    x['fs'].write('policy.d', 'x.yaml', {'beta': 'role:dir2e%d' % min(x['k'], 7)}, 'json')
                 else:
                     x['fs'].touch('policy.d', 'x.yaml')
             elif act == 'editmain':
@@ -108,6 +116,10 @@ def run_scenario(root, nenf, actions, seed):
         elif act == 'forced':
             x['e'].load_rules(force_reload=True)
             force = 1
+        elif evals % 2:
+            # the implicit load belongs to every enforcement call, whichever way the rule is named
+            from oslo_policy import _checks
+            x['e'].enforce(_checks.RuleCheck('rule', 'alpha'), {}, {'roles': ['new_alpha']})
         else:
             x['e'].enforce('alpha', {}, {'roles': ['new_alpha']})
         evals += 1
@@ -117,7 +129,7 @@ def run_scenario(root, nenf, actions, seed):
             viol = ('not-idempotent', 'enforcer %d: %s changed the effective policy: %r -> %r'
                     % (idx, act, x['obs'][-1]['rules'], o['rules']),
                     {'kind': 'failing-input', 'suite': 'spec-c12',
-                     'input': {'nenf': nenf, 'actions': [list(a) for a in actions]},
+                     'input': {'nenf': nenf, 'actions': [list(a) for a in actions], 'seed': seed},
                      'expected': x['obs'][-1]['rules'], 'observed': o['rules']})
             break
         # ... and as a brand-new enforcer (same options, same files, same shared objects) loading exactly once
@@ -129,21 +141,22 @@ def run_scenario(root, nenf, actions, seed):
 
         def unknown(enf):
             try:
-                return [bool(enf.enforce('zz_unknown_name', {}, {'roles': [r]})) for r in ('dflt', 'other')]
+                return [bool(enf.enforce(n, {}, {'roles': [r]})) for n in ('zz_unknown_name', 'theta') for r in PROBE_ROLES]
             except Exception as ex:   # noqa
                 return 'EXC ' + type(ex).__name__
         if unknown(x['e']) != unknown(fe):
-            viol = ('not-as-once', 'enforcer %d after %s: an unknown name is decided %r, by a fresh enforcer loading the same '
-                    'files once %r' % (idx, act, unknown(x['e']), unknown(fe)),
+            viol = ('not-as-once', 'enforcer %d after %s: an unknown name and a registered default referring to a file rule, under %d '
+                    'role sets, are decided %r, by a fresh enforcer loading the same files once %r'
+                    % (idx, act, len(PROBE_ROLES), unknown(x['e']), unknown(fe)),
                     {'kind': 'failing-input', 'suite': 'spec-c12',
-                     'input': {'nenf': nenf, 'actions': [list(a) for a in actions]},
+                     'input': {'nenf': nenf, 'actions': [list(a) for a in actions], 'seed': seed},
                      'expected': unknown(fe), 'observed': unknown(x['e'])})
             break
         if fo['rules'] != o['rules']:
             viol = ('not-as-once', 'enforcer %d after %s: effective policy %r differs from a fresh enforcer loading the same '
                     'files once: %r' % (idx, act, o['rules'], fo['rules']),
                     {'kind': 'failing-input', 'suite': 'spec-c12',
-                     'input': {'nenf': nenf, 'actions': [list(a) for a in actions]},
+                     'input': {'nenf': nenf, 'actions': [list(a) for a in actions], 'seed': seed},
                      'expected': fo['rules'], 'observed': o['rules']})
             break
         x['steps'].append([x['fs'].wire(), force])
@@ -154,7 +167,7 @@ def run_scenario(root, nenf, actions, seed):
             viol = ('registered-mutated', 'the RuleDefault objects the service passed in were altered by %s on enforcer %d'
                     % (act, idx),
                     {'kind': 'failing-input', 'suite': 'spec-c12',
-                     'input': {'nenf': nenf, 'actions': [list(a) for a in actions]},
+                     'input': {'nenf': nenf, 'actions': [list(a) for a in actions], 'seed': seed},
                      'expected': before, 'observed': after})
             break
     corr = None
@@ -243,7 +256,7 @@ def run(run, binfo):
 def replay(run, rep):
     root = fresh_root('c12replay')
     inp = rep['input']
-    viol, corr, _ = run_scenario(root, inp['nenf'], [tuple(a) for a in inp['actions']], 0)
+    viol, corr, _ = run_scenario(root, inp['nenf'], [tuple(a) for a in inp['actions']], inp.get('seed', 0))
     shutil.rmtree(root, ignore_errors=True)
     print('violation' if viol else 'no violation')
     return viol is None
